@@ -1,8 +1,10 @@
 package main
 
 import (
+	"os"
 	"reflect"
 	"runtime"
+	"sync"
 	"time"
 	"unsafe"
 	"weak"
@@ -15,6 +17,7 @@ import (
 // reference each other, and cycles through finalizable objects are never collected).
 
 type liveTracker struct {
+	mu     sync.Mutex
 	scopes map[string]weak.Pointer[byte]
 	insts  map[int]weak.Pointer[byte]
 	parent map[string]string
@@ -22,8 +25,11 @@ type liveTracker struct {
 }
 
 var live = &liveTracker{}
+var slowObs int
 
 func (l *liveTracker) reset() {
+	l.mu.Lock()
+	defer l.mu.Unlock()
 	l.scopes = map[string]weak.Pointer[byte]{}
 	l.insts = map[int]weak.Pointer[byte]{}
 	l.parent = map[string]string{}
@@ -39,6 +45,8 @@ func weakOf(v any) (weak.Pointer[byte], bool) {
 }
 
 func (l *liveTracker) trackScope(name string, s godi.Scope, parent string) {
+	l.mu.Lock()
+	defer l.mu.Unlock()
 	if w, ok := weakOf(s); ok {
 		l.scopes[name] = w
 	}
@@ -46,12 +54,16 @@ func (l *liveTracker) trackScope(name string, s godi.Scope, parent string) {
 }
 
 func (l *liveTracker) trackInst(id int, v any) {
+	l.mu.Lock()
+	defer l.mu.Unlock()
 	if w, ok := weakOf(v); ok {
 		l.insts[id] = w
 	}
 }
 
 func (l *liveTracker) markClosed(name string) {
+	l.mu.Lock()
+	defer l.mu.Unlock()
 	if name == "prov" {
 		for n := range l.parent {
 			l.closed[n] = true
@@ -96,15 +108,26 @@ func doObs(g0 int) {
 	}
 	if live.closed["root"] {
 		R.provider = nil
+		R.pendingNames = map[godi.Scope]string{}
+		R.waiters = map[godi.Scope]chan struct{}{}
 	}
 	R.mu.Unlock()
 	expected := g0 + openNonRoot
-	deadline := time.Now().Add(5 * time.Second)
+	// a healthy run reaches the expected count at once; the ceiling is only hit when goroutines really leak,
+	// and is lowered after a few such observations so that a leaking build does not stall the whole run
+	wait := 3 * time.Second
+	if slowObs >= 3 {
+		wait = 150 * time.Millisecond
+	}
+	deadline := time.Now().Add(wait)
 	n := runtime.NumGoroutine()
 	for n > expected && time.Now().Before(deadline) {
 		runtime.Gosched()
 		time.Sleep(200 * time.Microsecond)
 		n = runtime.NumGoroutine()
+	}
+	if n > expected {
+		slowObs++
 	}
 	for i := 0; i < 3; i++ {
 		runtime.GC()
@@ -121,6 +144,11 @@ func doObs(g0 int) {
 		if w.Value() != nil {
 			aliveInsts = append(aliveInsts, id)
 		}
+	}
+	if n-g0 > 0 && os.Getenv("VERIF_DEBUG") != "" {
+		buf := make([]byte, 1<<16)
+		buf = buf[:runtime.Stack(buf, true)]
+		os.Stderr.Write(buf)
 	}
 	emit(M{"ev": "obs", "goroutines": n - g0, "alive_scopes": aliveScopes, "alive_insts": aliveInsts, "ctx": ctxerr, "known": names})
 	R.cur = nil
